@@ -40,6 +40,10 @@ structure Thread where
   histAtCas : List Nat := []
   /-- ghost: floors acknowledged before this thread's CAS -/
   acksAtCas : List Nat := []
+  /-- ghost: CAS history / acknowledged floors / returned ids at the moment this call STARTED -/
+  histAtStart : List Nat := []
+  acksAtStart : List Nat := []
+  retsAtStart : List Nat := []
   ret : Option Ret := none
   deriving Repr
 
@@ -89,18 +93,23 @@ structure GState where
   hist : List Nat
   /-- ghost: every floor whose SetFloor returned nil -/
   acks : List Nat
+  /-- ghost: every id a Next call has RETURNED, newest first -/
+  rets : List Nat
   threads : Nat → Option Thread
 
-def init : GState := { floor := 0, hist := [], acks := [], threads := fun _ => none }
+def init : GState := { floor := 0, hist := [], acks := [], rets := [], threads := fun _ => none }
 
 def upd (f : Nat → Option Thread) (k : Nat) (t : Thread) : Nat → Option Thread :=
   fun i => if i = k then some t else f i
 
-/-- a fresh call: `arg` is SetFloor's parameter (register 0); Next ignores it -/
-def spawnThread (kind : Kind) (arg : Nat) : Thread :=
+/-- a fresh call starting in state `s`: `arg` is SetFloor's parameter (register 0); Next ignores it.
+    The start snapshots record what had happened before the call started. -/
+def spawnThread (kind : Kind) (arg : Nat) (s : GState) : Thread :=
   match kind with
-  | .next => { kind := .next, pc := 0, r0 := 0, r1 := 0, r2 := 0 }
-  | .setFloor => { kind := .setFloor, pc := 0, r0 := arg, r1 := 0, r2 := 0 }
+  | .next => { kind := .next, pc := 0, r0 := 0, r1 := 0, r2 := 0,
+               histAtStart := s.hist, acksAtStart := s.acks, retsAtStart := s.rets }
+  | .setFloor => { kind := .setFloor, pc := 0, r0 := arg, r1 := 0, r2 := 0,
+                   histAtStart := s.hist, acksAtStart := s.acks, retsAtStart := s.rets }
 
 /-- fold the outcome of a step into the global state (ghost bookkeeping) -/
 def commit (s : GState) (k : Nat) (fl' : Nat) (t' : Thread) : Out → GState
@@ -109,11 +118,12 @@ def commit (s : GState) (k : Nat) (fl' : Nat) (t' : Thread) : Out → GState
                        threads := upd s.threads k { t' with casd := some v, histAtCas := s.hist, acksAtCas := s.acks } }
   | .ret r => { s with floor := fl',
                        acks := (if t'.kind = .setFloor ∧ r = .ok then t'.r0 :: s.acks else s.acks),
+                       rets := (match r with | .id v => v :: s.rets | _ => s.rets),
                        threads := upd s.threads k { t' with ret := some r } }
 
 inductive Step : GState → GState → Prop
   | spawn (s : GState) (k : Nat) (kind : Kind) (arg : Nat) (h : s.threads k = none) :
-      Step s { s with threads := upd s.threads k (spawnThread kind arg) }
+      Step s { s with threads := upd s.threads k (spawnThread kind arg s) }
   | run (s : GState) (k : Nat) (t : Thread) (g fl' : Nat) (t' : Thread) (o : Out)
       (h : s.threads k = some t) (he : exec (progOf t.kind) s.floor t g = some (fl', t', o)) :
       Step s (commit s k fl' t' o)
